@@ -17,3 +17,11 @@ claim("C17", "DESIGN.md section 7 (C17)",
       "and (thorough) the exhaustive 2^20 masked IPv4 values x 8 seeds.",
       IDEAL + "hash/crc32 is compared against the Lean CRC on every run (not assumed). The BEP 42 test vectors are tests, not theorems.",
       "Lean 4 theorems + differential correspondence (Go vs compiled Lean driver)")
+
+claim("C07", "DESIGN.md section 7 (C07)",
+      "Kernel-checked theorems over the executable model of the transaction dispatcher and the varint ID issuer: uvarint is injective, no history of register/inbound/deregister events makes Dispatcher.Add panic, "
+      "outstanding IDs are pairwise distinct, a datagram is delivered only to the query registered under exactly (source address string, t), non-matching datagrams change nothing, delivery pops the transaction (at most once). "
+      "Tied to the code by trace validation at the Conn boundary: concurrent real Server.Query calls, injected genuine / near-miss / replayed datagrams each carrying a unique marker, the observed completions replayed through the Lean dispatcher, "
+      "plus direct oracles (completed only by the datagram from the exact address with the exact t; Stats().OutstandingTransactions agrees).",
+      IDEAL + "The process-wide ID issuer is modelled as a counter whose start value is read off the first observed ID; uint64 wrap-around after 2^64 queries is out of scope.",
+      "Lean 4 theorems + trace validation of real Query histories against the Lean dispatcher")
